@@ -3,6 +3,7 @@ package main
 import (
 	"encoding/json"
 	"fmt"
+	"reflect"
 	"strings"
 	"time"
 
@@ -28,6 +29,9 @@ type BurstParams struct {
 	// CloseFault: the close-stream request of one vBucket is applied by the server but its reply is lost (the
 	// library's request times out) while the rebalance closes the stream
 	CloseFault bool `json:"close_fault"`
+	// Mitigation: rollback mitigation is on and nothing beyond the events delivered before the burst is ever
+	// persisted: the events that keep arriving wait at the gate across the close / re-open and are never shown
+	Mitigation bool `json:"mitigation"`
 	Hold       bool `json:"hold"`  // adversarially delay the membership subscriber of the bus
 	Tight      bool `json:"tight"` // only gap 0, sources bus then api-rebalance
 }
@@ -61,6 +65,8 @@ func init() {
 				{Scenario: "c11_burst", Params: mustJSON(BurstParams{Membership: "static", MaxN: n}), Bound: b, Shards: 8},
 				{Scenario: "c11_burst", Params: mustJSON(BurstParams{Membership: "dynamic", MaxN: 1, Hold: true}), Bound: b, Shards: 2},
 				{Scenario: "c11_burst", Params: mustJSON(BurstParams{Membership: "static", MaxN: 2, Tight: true}), Bound: 1, Shards: 8, Note: "two notifications at the same instant (bus + GET /rebalance), all single deviations"},
+				{Scenario: "c11_burst", Params: mustJSON(BurstParams{Membership: "static", MaxN: 1, Mitigation: true}), Bound: 0, Shards: 2, Note: "events waiting at the rollback-mitigation gate when the rebalance closes the stream"},
+				{Scenario: "c11_burst", Params: mustJSON(BurstParams{Membership: "dynamic", MaxN: 1, Mitigation: true}), Bound: 0, Shards: 2, Note: "events waiting at the rollback-mitigation gate when the rebalance closes the stream"},
 				{Scenario: "c11_burst", Params: mustJSON(BurstParams{Membership: "static", MaxN: 1, CloseFault: true}), Bound: 0, Shards: 2, Note: "the reply to one close-stream request of the rebalance is lost"},
 				{Scenario: "c11_burst", Params: mustJSON(BurstParams{Membership: "dynamic", MaxN: 1, CloseFault: true}), Bound: 0, Shards: 2, Note: "the reply to one close-stream request of the rebalance is lost"},
 			}
@@ -90,7 +96,19 @@ func burstMain(p BurstParams) {
 	delay := o.RebalanceDelay
 	c := NewCluster(&o.EnvOpts)
 	for vb := uint16(0); vb < 4; vb++ {
-		c.Append(vb, marker(1, 2), symbolPacket("M", 1), symbolPacket("M", 2))
+		if p.Mitigation {
+			// one long snapshot: the later items arrive without a marker of their own, so it is a DOCUMENT that
+			// waits at the gate when the stream is closed
+			c.Append(vb, marker(1, 50), symbolPacket("M", 1), symbolPacket("M", 2))
+		} else {
+			c.Append(vb, marker(1, 2), symbolPacket("M", 1), symbolPacket("M", 2))
+		}
+	}
+	if p.Mitigation {
+		o.Mitigation = true
+		for vb := uint16(0); vb < 4; vb++ {
+			c.SetPersist(vb, 0, gocbcore.SimPersist{VbUUID: c.Vb[vb].Failover[0].VbUUID, Persist: 2, Current: 2})
+		}
 	}
 	e := NewDcpEnv(c, o)
 	if e.Err != nil {
@@ -106,7 +124,13 @@ func burstMain(p BurstParams) {
 	order := 0
 	e.EH.On = func(n string) { order++; hlog = append(hlog, hev{n, vrt.NowNanos(), order}) }
 	var consumeIdx []int
-	e.Cons.OnConsume = func(d *Delivered) { order++; consumeIdx = append(consumeIdx, order) }
+	e.Cons.OnConsume = func(d *Delivered) {
+		order++
+		consumeIdx = append(consumeIdx, order)
+		if p.Mitigation && d.Seq > 2 {
+			vrt.Failf("%s membership, rollback mitigation on: event vb%d seq %d was delivered although no copy ever reported it persisted (handler log so far: %v)", p.Membership, d.Vb, d.Seq, e.EH.Log)
+		}
+	}
 	inEffect := [2]int{1, 1}
 	if p.Membership == "dynamic" {
 		vrt.GoNamed("first-membership", func() {
@@ -123,7 +147,7 @@ func burstMain(p BurstParams) {
 		return
 	}
 	e.D.Commit()
-	a := api.NewAPI(e.Cfg, e.D.GetClient(), dcpStream(e), nil, []prometheus.Collector{}, e.bus())
+	a := newAPI(e.Cfg, e.D.GetClient(), dcpStream(e), []prometheus.Collector{}, e.bus(), dcp.VerifDiscovery(e.D))
 	readyIdx := len(hlog)
 	readyOrder := order
 	if p.Hold {
@@ -178,10 +202,23 @@ func burstMain(p BurstParams) {
 				vrt.Sleep(nt.gap)
 			}
 		}
+		if !p.Tight && nt.src == "api-info" && nt.val == inEffect && nt.val != apiInfo {
+			// a PUT that repeats the numbering another source has put into effect, while the API itself has not
+			// seen it yet: the property allows either reaction (the repetition clause vs. the API's own
+			// de-duplication against its last request); left out
+			continue
+		}
 		// events keep arriving on the server while all this happens
 		for vb := uint16(0); vb < 4; vb++ {
 			s := c.Vb[vb].High + 1
+			if p.Mitigation {
+				c.Append(vb, symbolPacket("M", s))
+				continue
+			}
 			c.Append(vb, marker(s, s), symbolPacket("M", s))
+		}
+		if p.Mitigation {
+			vrt.Sleep(time.Second) // the DCP thread takes the first new event and parks at the gate
 		}
 		nt.at = vrt.NowNanos()
 		nt.took = true
@@ -213,9 +250,11 @@ func burstMain(p BurstParams) {
 		vrt.Sleep(2 * time.Minute) // the unanswered close request runs into its 60 s timeout first
 	}
 	vrt.Sleep(3*delay + time.Second)
-	vrt.Quiesce()
-	c.WaitIdle()
-	vrt.Quiesce()
+	if !p.Mitigation { // (with events parked at the gate the DCP thread polls for ever: there is no quiescence to wait for)
+		vrt.Quiesce()
+		c.WaitIdle()
+		vrt.Quiesce()
+	}
 	vrt.Window(false)
 	var desc []string
 	for _, nt := range ns {
@@ -419,7 +458,31 @@ func dcp_discoveryMetric(e *DcpEnv) [2]int {
 }
 
 func apiFor(cfg *config.Dcp, bus EventBus.Bus) api.API {
-	return api.NewAPI(cfg, nil, nil, nil, []prometheus.Collector{}, bus)
+	return newAPI(cfg, []prometheus.Collector{}, bus)
 }
 
 func apiPut(a api.API, body string) (int, string, error) { return api.VerifPutInfo(a, []byte(body)) }
+
+// newAPI calls api.NewAPI through reflection, picking each argument by the parameter's type from the values
+// on offer (nil / zero for a parameter nothing is offered for): a change that adds or reorders constructor
+// parameters still builds and is judged by its behaviour instead of ending in "harness does not compile".
+func newAPI(offer ...any) api.API {
+	f := reflect.ValueOf(api.NewAPI)
+	t := f.Type()
+	args := make([]reflect.Value, t.NumIn())
+	for i := range args {
+		pt := t.In(i)
+		args[i] = reflect.Zero(pt)
+		for _, o := range offer {
+			if o == nil {
+				continue
+			}
+			ov := reflect.ValueOf(o)
+			if ov.Type().AssignableTo(pt) {
+				args[i] = ov
+				break
+			}
+		}
+	}
+	return f.Call(args)[0].Interface().(api.API)
+}
